@@ -304,6 +304,9 @@ Definition bounds_ok_delta (k : kde) : Prop :=
   | BBad => False
   end.
 
+Lemma Qsum_zeros {A} (l : list A) : Qsum (map (fun _ : A => 0) l) == 0.
+Proof. induction l as [|q l IH]; cbn [map Qsum]; [reflexivity | rewrite IH; ring]. Qed.
+
 Section DeltaBounds.
   Variable k : kde.
   Hypothesis ok : kde_ok_delta k.
@@ -406,5 +409,90 @@ Section DeltaBounds.
       as [NP S].
     split; [exact NP|]. intros lo hi H. destruct (S lo hi H) as (A & _).
     exists (kde_cdf_q k lo), (kde_cdf_q k hi). repeat split; [apply kde_cdf_q_delta | apply kde_cdf_q_delta | exact A].
+  Qed.
+
+  (* ---- the mass of the CLOSED interval [lo, hi] (delta_mass_in: what Check/C12.v puts into
+     the acceptance test for the delta kernel) is at least the CDF difference ---- *)
+  Let wf : ws_wf (k_xs k) (k_ws k). Proof. apply ok. Qed.
+  Let Wpos : 0 < wtotal (kde_ps k) := wtotal_pos (kde_ps k) pok.
+  Let wpos p : In p (kde_ps k) -> 0 < snd p.
+  Proof. pose proof pok as [_ Fa]. rewrite Forall_forall in Fa. apply Fa. Qed.
+  (* left limit of the empirical distribution function: weight of the data points < x *)
+  Let E' (x : Q) : Q :=
+    Qsum (map (fun p => if Qle_bool x (fst p) then 0 else snd p) (kde_ps k)) / wtotal (kde_ps k).
+
+  Let div_le (a b : Q) : a <= b -> a / wtotal (kde_ps k) <= b / wtotal (kde_ps k).
+  Proof.
+    intro L. unfold Qdiv. pose proof (Qinv_lt_0_compat _ Wpos) as I. set (i := / wtotal (kde_ps k)) in *. nra.
+  Qed.
+
+  Let mass_ge (lo hi : Q) : E hi - E' lo <= delta_mass_in (k_xs k) (k_ws k) lo hi.
+  Proof.
+    rewrite (delta_mass_in_spec (k_xs k) (k_ws k) lo hi wf). fold (kde_ps k). unfold E, E', wecdf.
+    set (W := wtotal (kde_ps k)).
+    setoid_replace (Qsum (map (fun p => if Qle_bool (fst p) hi then snd p else 0) (kde_ps k)) / W -
+                    Qsum (map (fun p => if Qle_bool lo (fst p) then 0 else snd p) (kde_ps k)) / W)
+      with ((Qsum (map (fun p => if Qle_bool (fst p) hi then snd p else 0) (kde_ps k)) -
+             Qsum (map (fun p => if Qle_bool lo (fst p) then 0 else snd p) (kde_ps k))) / W)
+      by (unfold Qdiv; ring).
+    apply div_le. rewrite Qsum_minus. apply Qsum_le. intros p Hp. pose proof (wpos p Hp).
+    destruct (Qle_bool (fst p) hi), (Qle_bool lo (fst p)); cbn [andb]; lra.
+  Qed.
+  Let E'_le_E (x : Q) : E' x <= E x.
+  Proof.
+    unfold E, E', wecdf. apply div_le. apply Qsum_le. intros p Hp. pose proof (wpos p Hp).
+    destruct (Qle_bool x (fst p)) eqn:A, (Qle_bool (fst p) x) eqn:B; qb; lra.
+  Qed.
+  Let E'_zero (lo hi x : Q) : pairs_within lo hi (kde_ps k) -> x <= lo -> E' x <= 0.
+  Proof.
+    intros Hin L. unfold E'.
+    pose proof (Qsum_zeros (kde_ps k)) as Z.
+    assert (L2 : Qsum (map (fun p => if Qle_bool x (fst p) then 0 else snd p) (kde_ps k)) <= 0).
+    { apply Qle_trans with (Qsum (map (fun _ : Q * Q => 0) (kde_ps k))); [|rewrite Z; lra].
+      apply Qsum_le. intros p Hp. unfold pairs_within in Hin. rewrite Forall_forall in Hin.
+      specialize (Hin p Hp). assert (A : Qle_bool x (fst p) = true) by (apply Qle_bool_iff; lra). rewrite A. lra. }
+    pose proof (div_le _ 0 L2) as L3. unfold Qdiv in L3 |- *. lra.
+  Qed.
+
+  Let F_ge_left (lo : Q) : E' lo <= kde_cdf_q k lo.
+  Proof.
+    destruct (kde_cdf_q_delta lo) as [_ D]. pose proof (E'_le_E lo) as L1. pose proof (E_range lo) as R.
+    pose proof bok as bok'. unfold bounds_ok_delta in bok'.
+    destruct (k_b k) as [|m|M|m M|]; [lra| | | |contradiction].
+    - destruct bok' as [hi0 Hin]. destruct D as [D1 D2].
+      destruct (Qlt_le_dec m lo) as [A|A]; [rewrite (D2 A); lra | rewrite (D1 A); apply (E'_zero m hi0 lo Hin A)].
+    - destruct D as [D1 D2].
+      destruct (Qlt_le_dec lo M) as [A|A]; [rewrite (D2 A); lra | rewrite (D1 A); lra].
+    - destruct bok' as [mM Hin]. destruct D as (D1 & D2 & D3).
+      destruct (Qlt_le_dec m lo) as [A|A]; [|rewrite (D1 A); apply (E'_zero m M lo Hin A)].
+      destruct (Qlt_le_dec lo M) as [A'|A']; [rewrite (D3 A A'); lra | rewrite (D2 A'); lra].
+  Qed.
+  Let F_le_right (hi : Q) : kde_cdf_q k hi <= E hi.
+  Proof.
+    destruct (kde_cdf_q_delta hi) as [_ D]. pose proof (E_range hi) as R.
+    pose proof bok as bok'. unfold bounds_ok_delta in bok'.
+    destruct (k_b k) as [|m|M|m M|]; [lra| | | |contradiction].
+    - destruct D as [D1 D2].
+      destruct (Qlt_le_dec m hi) as [A|A]; [rewrite (D2 A); lra | rewrite (D1 A); lra].
+    - destruct bok' as [lo0 Hin]. destruct D as [D1 D2].
+      destruct (Qlt_le_dec hi M) as [A|A]; [rewrite (D2 A); lra|]. rewrite (D1 A).
+      unfold E. rewrite (wecdf_right k ok lo0 M hi Hin A). lra.
+    - destruct bok' as [mM Hin]. destruct D as (D1 & D2 & D3).
+      destruct (Qlt_le_dec m hi) as [A|A]; [|rewrite (D1 A); lra].
+      destruct (Qlt_le_dec hi M) as [A'|A']; [rewrite (D3 A A'); lra|]. rewrite (D2 A').
+      unfold E. rewrite (wecdf_right k ok m M hi Hin A'). lra.
+  Qed.
+
+  Theorem kde_bounds_search_delta_mass (fuel : nat) (lo hi : Q) :
+    kde_bounds_search k fuel = BrOk lo hi ->
+    kde_bounds_ok (k_b k) (XFin lo) (XFin hi) (delta_mass_in (k_xs k) (k_ws k) lo hi) = true.
+  Proof.
+    intro H. destruct (kde_bounds_search_delta fuel) as [_ S].
+    destruct (S lo hi H) as (clo & chi & Clo & Chi & B).
+    destruct (kde_cdf_q_delta lo) as [Clo' _]. destruct (kde_cdf_q_delta hi) as [Chi' _].
+    rewrite Clo in Clo'. rewrite Chi in Chi'. injection Clo' as ->. injection Chi' as ->.
+    pose proof (mass_ge lo hi) as M1. pose proof (F_ge_left lo) as M2. pose proof (F_le_right hi) as M3.
+    unfold kde_bounds_ok in *. apply andb_true_iff in B. destruct B as [B1 B2]. rewrite B1. cbn [andb].
+    apply Qle_bool_iff. apply Qle_bool_iff in B2. lra.
   Qed.
 End DeltaBounds.
